@@ -734,7 +734,7 @@ def write_cargo():
     path = os.path.join(vlib.ROOT, "harness", "t", "Cargo.toml")
     s = open(path).read()
     import re
-    s2 = re.sub(r'stakker = \{ path = "[^"]*" \}', 'stakker = { path = "%s" }' % vlib.REPO, s)
+    s2 = re.sub(r'stakker = \{ path = "[^"]*"', 'stakker = { path = "%s"' % vlib.REPO, s)
     if s2 != s:
         open(path, "w").write(s2)
 
